@@ -109,12 +109,15 @@ def model_check(cfgs):
 def emit_behaviours(thorough):
     res = []
     cfg = "mc/MC_KV_emit_thorough" if thorough else "mc/MC_KV_emit"
-    e = vlib.tlc("mc/MC_KV", cfg, workers=1, coverage=False, timeout=1500)
+    from concurrent.futures import ThreadPoolExecutor
+    n = 12000 if thorough else 1800
+    with ThreadPoolExecutor(max_workers=2) as ex:
+        fe = ex.submit(vlib.tlc, "mc/MC_KV", cfg, workers=1, coverage=False, timeout=1500)
+        fs = ex.submit(vlib.tlc, "mc/MC_KV", "mc/MC_KV_emitsim", workers=1, coverage=False, simulate=n, depth=15,
+                       seed_=vlib.seed() * 7919 + 13, timeout=1500)
+        e, s = fe.result(), fs.result()
     vlib.tlc_ok(e, cfg)
     sysb = e.printed("KVBEH")
-    n = 12000 if thorough else 1800
-    s = vlib.tlc("mc/MC_KV", "mc/MC_KV_emitsim", workers=1, coverage=False, simulate=n, depth=15,
-                 seed_=vlib.seed() * 7919 + 13, timeout=1500)
     simb = s.printed("KVBEH")
     if len(sysb) < 500 or len(simb) < n // 2:
         print(e.out[-1500:], s.out[-1500:])
@@ -480,6 +483,8 @@ def selftest(rep, wd, behs, trace_path, nk, scen_path=None):
             os.remove(path)
     if not probe.violations:
         raise ToolError("selftest: a corrupted expectation was not noticed by the replay")
+    # corrupted recorded fields: each must be rejected at exactly its event (three trace validations side by side)
+    jobs = []
     evs = vlib.read_ndjson(trace_path)
     cand = [i for i, e in enumerate(evs) if e["k"] == "OutIter" and len(e["res"]) >= 2 and e["lo"] == e["hi"]]
     if not cand:
@@ -488,10 +493,7 @@ def selftest(rep, wd, behs, trace_path, nk, scen_path=None):
     evs[j]["res"] = evs[j]["res"][1:]                          # the iterator "skipped" its first key
     bad = os.path.join(wd, "selftest_trace.ndjson")
     vlib.write_ndjson(bad, evs)
-    ok, why, _ = validate_trace(bad, "selftest", nk)
-    if ok or why["index"] != j + 1:
-        raise ToolError("selftest: a corrupted iterator observation was not rejected at its event (%s)" % (why,))
-    st = {"corrupted_expectation_rejected": True, "corrupted_trace_rejected_at": j + 1}
+    jobs.append(("trace", bad, nk, j))
     if scen_path:
         # a held iterator that "sees" its own thread's later commit, and a read in flight that yields another value
         evs = vlib.read_ndjson(scen_path)
@@ -506,11 +508,17 @@ def selftest(rep, wd, behs, trace_path, nk, scen_path=None):
                 bad_evs[j]["res"][1] += 1
             else:
                 bad_evs[j]["res"] += 1
+            bad = os.path.join(wd, "selftest_%s.ndjson" % what)
             vlib.write_ndjson(bad, bad_evs)
-            ok, why, _ = validate_trace(bad, "selftest " + what, 100)
-            if ok or why["index"] != j + 1:
-                raise ToolError("selftest: a corrupted %s observation was not rejected at its event (%s)" % (what, why))
-            st["corrupted_%s_rejected_at" % what] = j + 1
+            jobs.append((what, bad, 100, j))
+    from concurrent.futures import ThreadPoolExecutor
+    with ThreadPoolExecutor(max_workers=3) as ex:
+        verdicts = list(ex.map(lambda jb: validate_trace(jb[1], "selftest " + jb[0], jb[2]), jobs))
+    st = {"corrupted_expectation_rejected": True}
+    for (what, _, _, j), (ok, why, _) in zip(jobs, verdicts):
+        if ok or why["index"] != j + 1:
+            raise ToolError("selftest: a corrupted %s observation was not rejected at its event (%s)" % (what, why))
+        st["corrupted_%s_rejected_at" % what] = j + 1
     return st
 
 
